@@ -1378,7 +1378,9 @@ pub fn errkind(k: u8) -> std::io::ErrorKind {
         0 => std::io::ErrorKind::Other,
         1 => std::io::ErrorKind::UnexpectedEof,
         2 => std::io::ErrorKind::Interrupted,
-        _ => std::io::ErrorKind::WriteZero,
+        3 => std::io::ErrorKind::WriteZero,
+        4 => std::io::ErrorKind::WouldBlock,
+        _ => std::io::ErrorKind::TimedOut,
     }
 }
 
@@ -1574,7 +1576,7 @@ pub fn run_c13(ctx: &Ctx, st: &mut Local) {
         for &c in &wcalls {
             singles.push((false, Dev::Short(c, 1)));
             singles.push((false, Dev::Short(c, 5)));
-            for k in [0u8, 2, 3] {
+            for k in [0u8, 2, 3, 4] {
                 singles.push((false, Dev::Fail(c, k)));
             }
         }
@@ -1607,7 +1609,7 @@ pub fn run_c13(ctx: &Ctx, st: &mut Local) {
         let roffs: Vec<usize> = (0..=cont.len()).filter(|o| !big || *o < 64 || *o + 64 > cont.len() || o % 97 == 0).collect();
         let woffs: Vec<usize> = (0..f.len()).filter(|o| !big || *o < 64 || *o + 64 > f.len() || o % 97 == 0).collect();
         for &o in &roffs {
-            for k in [0u8, 2] {
+            for k in [0u8, 2, 4] {
                 scripts.push(IoScript { rfail_off: Some((o, k)), ..Default::default() });
                 if !ctx.quick() || o % 5 == 0 {
                     scripts.push(IoScript { rfail_off: Some((o, k)), rmax: 3, wmax: 7, ..Default::default() });
@@ -1615,7 +1617,7 @@ pub fn run_c13(ctx: &Ctx, st: &mut Local) {
             }
         }
         for &o in &woffs {
-            for k in [0u8, 2] {
+            for k in [0u8, 2, 4, 5] {
                 scripts.push(IoScript { wfail_off: Some((o, k)), ..Default::default() });
                 if !ctx.quick() || o % 5 == 0 {
                     scripts.push(IoScript { wfail_off: Some((o, k)), rmax: 7, wmax: 3, ..Default::default() });
@@ -1637,9 +1639,61 @@ pub fn run_c13(ctx: &Ctx, st: &mut Local) {
             c13_judge(ctx, st, name, i, f, sc, &res);
         }
     }
+    // histories on one fresh thread: a call that fails with an injected error, then a clean call
+    let hname = "E11hist";
+    if ctx.engine_on(hname) {
+        let mut hidx = 0u64;
+        for (d, f) in files.iter().take(if ctx.quick() { 8 } else { 24 }) {
+            let cont = match caught(|| s.expand(f)) {
+                Ok(Ok(e)) => e,
+                _ => continue,
+            };
+            let base = run_io(s, &cont, &IoScript::default());
+            let (nr, nw) = (base.rcalls.min(40), base.wcalls.min(40));
+            let mut faults: Vec<IoScript> = Vec::new();
+            for c in 0..nr {
+                faults.push(IoScript { rdevs: vec![Dev::Fail(c, 0)], ..Default::default() });
+            }
+            for c in 0..nw {
+                faults.push(IoScript { wdevs: vec![Dev::Fail(c, 0)], ..Default::default() });
+                faults.push(IoScript { wdevs: vec![Dev::Short(c, 1), Dev::Fail(c + 1, 4)], ..Default::default() });
+            }
+            for sc in &faults {
+                let i = hidx;
+                hidx += 1;
+                count(ctx, hname, st, i, true);
+                if !ctx.take(hname, i) {
+                    continue;
+                }
+                st.sample(hname, || format!("#{} file {}: call under {:?}, then a clean call on the same thread", i, d, sc));
+                ctx.begin(hname, i, 60_000);
+                let second = std::thread::scope(|t| {
+                    t.spawn(|| {
+                        let _ = run_io(s, &cont, sc);
+                        run_io(s, &cont, &IoScript::default())
+                    })
+                    .join()
+                });
+                ctx.end();
+                match second {
+                    Ok(r) => match &r.result {
+                        Ok(Ok(())) if r.out == *f => st.outcome(hname, "clean-call-after-failed-call-ok"),
+                        Err(p) => st.violation(ctx.viol(hname, i, "panic-after-failed-call", Some(p.loc.clone()),
+                            format!("a clean recreated_zlib_chunks call panics after a call on the same thread failed under {:?}: {}", sc, p.msg), f)),
+                        _ => st.violation(ctx.viol(hname, i, "wrong-after-failed-call", None,
+                            format!("a clean call after a call that failed under {:?} does not return the file", sc), f)),
+                    },
+                    Err(_) => st.violation(ctx.viol(hname, i, "panic-after-failed-call", None, "thread died".into(), f)),
+                }
+            }
+        }
+        let e = st.eng(hname);
+        e.bound = "per container: for every read and write call (first 40) a call that fails there (Other; partial write then WouldBlock), followed by a clean call on the same fresh thread".into();
+        e.exhaustive = true;
+    }
     let e = st.eng(name);
     e.bound = format!(
-        "{} containers; per container: the default environment, 36 uniform fragmentation policies (reads <= k, writes <= m; k, m in 1,2,3,7,8,inf), every single deviation (short read/partial write of 1 and of 5 bytes, errors Other/UnexpectedEof/Interrupted/WriteZero) at every read and write call, every pair of deviations for containers <= {} bytes, a one-shot error (Other, Interrupted) at every source byte offset and every destination byte offset (large containers: first/last 64 offsets and every 97th); {} environment scripts in total",
+        "{} containers; per container: the default environment, 36 uniform fragmentation policies (reads <= k, writes <= m; k, m in 1,2,3,7,8,inf), every single deviation (short read/partial write of 1 and of 5 bytes, errors Other/UnexpectedEof/Interrupted/WriteZero/WouldBlock) at every read and write call, every pair of deviations for containers <= {} bytes, a one-shot error (Other, Interrupted, WouldBlock, TimedOut) at every source byte offset and every destination byte offset (large containers: first/last 64 offsets and every 97th); {} environment scripts in total",
         files.len(), if ctx.quick() { 2400 } else { 6000 }, total_scripts
     );
     e.exhaustive = true;
